@@ -978,3 +978,55 @@ def r5b(cx):
             cx.violation(b.root, 'not-found', 'an unknown command yields %s with $? writes %s; documented: $? = 127 and '
                          'execution continues' % (vfmt(o['ret']), writes), loc=bloc(b))
             break
+
+
+SET_DIVERT = 'yash_env::builtin::Result::set_divert'
+INVOKE_TARGET = 'yash_builtin::command::invoke::invoke_target'
+
+
+@RS.rule('C10.R9', 'K-CONST+K-PASS', "a Divert reported by a built-in is never erased on its way to the executor: set_divert only "
+         "raises (its argument is always Break(..)), and the `command` built-in returns the invoked built-in's result as it is")
+def r9(cx):
+    F = cx.F
+    # (a) who sets the divert of a built-in result, and to what
+    sites = [(b, blk, t) for b, blk, t in F.callers_of(lambda names, t: SET_DIVERT in names)]
+    cx.floor(len(sites), 1, 'call sites of builtin::Result::set_divert (exec: Abort)')
+    for b, blk, t in sites:
+        du = Q.DefUse(b)
+        org = du.origin(t['a'][1])
+        raised = org['k'] == 'agg' and org['rv'].get('adt') == 'core::ops::control_flow::ControlFlow' and org['rv'].get('variant') == 'Break'
+        cx.site('%s: set_divert(%s) at %s' % (b.fn, 'Break(..)' if raised else pp.operand(b, t['a'][1]), b.loc(t)))
+        if not raised:
+            cx.violation(b.root, 'set_divert-not-raising', "a built-in result's divert is overwritten with something that is not a "
+                         'freshly built Break(..): a pending Interrupt/Exit (shell error, errexit) can be cleared and the script '
+                         'continues past the abort point', loc=b.loc(t))
+    # (b) `command <built-in>`: the result of the invoked built-in is what invoke_target returns
+    body = F.main_body(INVOKE_TARGET)
+    cx.fn(body.fn)
+    du = Q.DefUse(body)
+    ind = [(blk, t) for blk, t in body.calls() if 'indirect' in t['f'] and 'Output = yash_env::builtin::Result' in t['f'].get('ty', '')]
+    cx.require(len(ind) == 1, 'the call of the built-in\'s `execute` function pointer was not found in command::invoke_target')
+    blk, call = ind[0]
+    rets = [(b2, j, s) for b2, j, s in body.stmts() if s['k'] == 'assign' and s['lhs']['l'] == 0 and not s['lhs'].get('p')
+            and call['to'] is not None and body.dominates(call['to'], b2)]
+    ret_calls = [(b2, t) for b2, t in body.calls() if t['dest']['l'] == 0 and not t['dest'].get('p') and call['to'] is not None
+                 and body.dominates(call['to'], b2)]
+    cx.site('%s: (builtin.execute)(..) at %s; %d write(s) of the return value after it' % (body.fn, body.loc(call), len(rets) + len(ret_calls)))
+    ok = bool(rets) and not ret_calls
+    for b2, j, s in rets:
+        src = Q.value_source(body, du, s['rv']['o']) if s['rv']['k'] == 'use' else None
+        if src is not call:
+            ok = False
+    # nothing may modify the result in between (a &mut borrow of the awaited value passed to a call)
+    if ok:
+        res_locals = {Q.operand_place(s['rv']['o'])['l'] for _, _, s in rets}
+        for b2, t in body.calls():
+            if call['to'] is not None and body.dominates(call['to'], b2):
+                for a in t['a']:
+                    o = du.origin(a)
+                    if o['k'] == 'ref' and o.get('mut') and o['pl']['l'] in res_locals:
+                        ok = False
+    if not ok:
+        cx.violation(INVOKE_TARGET, 'builtin-result-altered', "the `command` built-in does not return the invoked built-in's result "
+                     'unchanged: a Divert it carries (e.g. the Interrupt of a syntax error inside `command eval`, or of a failed '
+                     '`command .`) can be lost and the script continues after a shell error', loc=body.loc(call))
